@@ -34,3 +34,40 @@ def expectBin (start stop off : Int) : Int :=
   else binOf (start - off) stop
 
 end BioCantor.Spec
+
+namespace BioCantor.Spec
+
+/-- sorted, merged inclusive runs (canonical form of a finite set of ints given as ranges) -/
+def insertRun (r : Int × Int) : List (Int × Int) → List (Int × Int)
+  | [] => [r]
+  | x :: xs => if r.1 ≤ x.1 then r :: x :: xs else x :: insertRun r xs
+
+def sortRuns : List (Int × Int) → List (Int × Int)
+  | [] => []
+  | r :: rs => insertRun r (sortRuns rs)
+
+def mergeRuns : List (Int × Int) → List (Int × Int)
+  | [] => []
+  | [r] => [r]
+  | a :: b :: rest =>
+    if b.1 ≤ a.2 + 1 then mergeRuns ((a.1, max a.2 b.2) :: rest) else a :: mergeRuns (b :: rest)
+termination_by l => l.length
+
+def normRuns (rs : List (Int × Int)) : List (Int × Int) :=
+  mergeRuns (sortRuns (rs.filter (fun r => decide (r.1 ≤ r.2))))
+
+/-- expected answer of `bins(start, stop, fmt, one=False)`: bin 1 plus, at every level, the windows
+    from the one holding the (format-adjusted) start to the one holding the stop; a stop past the
+    binned range is treated as the end of that range; invalid input gives {1}. -/
+def rawBinSet (start stop off : Int) : List (Int × Int) :=
+  if start ≥ 536870912 ∨ start - off < 0 ∨ stop < 0 then [(1, 1)]
+  else
+    let hi := if stop ≥ 536870912 then 536870911 else stop
+    let lo := start - off
+    [(1, 1), (4681 + lo / 131072, 4681 + hi / 131072), (585 + lo / 1048576, 585 + hi / 1048576),
+     (73 + lo / 8388608, 73 + hi / 8388608), (9 + lo / 67108864, 9 + hi / 67108864),
+     (1 + lo / 536870912, 1 + hi / 536870912)]
+
+def expectBinSet (start stop off : Int) : List (Int × Int) := normRuns (rawBinSet start stop off)
+
+end BioCantor.Spec
